@@ -88,3 +88,6 @@ pub fn run(prefix: &str) {
     }
     println!("smoke: {bad} unexpected differences");
 }
+
+/// development aid: dump the JSON form of one C19 entry's value (reference environment)
+pub fn dump(_name: &str, _seed: u64, _size: &str) {}
